@@ -10,10 +10,12 @@ namespace PttVerif.C01
 open PttVerif
 
 def cfgDefault : Config :=
-  ⟨Gen.LayoutDefault.types, Gen.LayoutDefault.compiler, Gen.LayoutDefault.consts, Gen.LayoutDefault.updates⟩
+  ⟨Gen.LayoutDefault.types, Gen.LayoutDefault.compiler, Gen.LayoutDefault.consts, Gen.LayoutDefault.offsetConsts,
+   Gen.LayoutDefault.updates⟩
 
 def cfgDocker : Config :=
-  ⟨Gen.LayoutDocker.types, Gen.LayoutDocker.compiler, Gen.LayoutDocker.consts, Gen.LayoutDocker.updates⟩
+  ⟨Gen.LayoutDocker.types, Gen.LayoutDocker.compiler, Gen.LayoutDocker.consts, Gen.LayoutDocker.offsetConsts,
+   Gen.LayoutDocker.updates⟩
 
 def cfgByName : String → Option Config
   | "default" => some cfgDefault
